@@ -98,7 +98,7 @@ Definition utf8_ok (bs : list byte) : bool :=
   let rs := runes bs in forallb is_scalar rs && bytes_eqb (concat (map utf8 rs)) bs.
 
 Definition char_readable (r : N) : bool :=
-  is_scalar r && negb (r =? 0)%N &&
+  is_scalar r &&
   match special_char r with
   | Some _ => true
   | None => if (r <? 32)%N then true
